@@ -13,7 +13,8 @@ import common
 
 RULE = ("allocator cases = (MAX_CHANNEL, probes, cursor, occupancy set) with cursors at MAX-2..MAX, dense/sparse "
         "occupancy, exactly probes / probes-1 occupied ids after the cursor, None-valued and missing keys; history "
-        "cases = random op sequences (open tcp/dns/udp, close id, frame id) on small MAX (wrap-around within a few "
+        "cases = random op sequences (open tcp/dns/udp, close id, frame id, clock advance of 1/29/30/31/61 s, another "
+        "datagram from a source that already has a UDP association) on small MAX (wrap-around within a few "
         "ops, exhaustion) and on 65535 with the cursor preset near the top; exhaustive enumeration of all histories "
         "up to a length for MAX <= 3 (thorough); non-trivial = a wrap-around, a skip of an occupied id, an exhaustion "
         "or a late frame occurred; distinct = distinct canonical op sequence")
@@ -30,7 +31,12 @@ MANIFEST = dict(
                 "kinds, closes and frames the live ids are pairwise distinct and non-zero for every MAX>=1 "
                 "(C06_distinct, by induction over histories); a frame for a free id is dropped and a delivered frame goes "
                 "to the unique flow registered under that id (C06_late_frame_dropped, C06_frame_reaches_owner, "
-                "C06_owner_unique); ids are not re-used before the cursor wraps (C06_fresh_before_wrap). Tied to the code by "
+                "C06_owner_unique); ids are not re-used before the cursor wraps (C06_fresh_before_wrap); with the clock and the lazy "
+                "expiry sweep at the end of every accept handler in the model (Timed: dnsreqs/udp_by_src deadlines, "
+                "expire_connections, refresh of an existing UDP association before the sweep), for every history the ids stay "
+                "distinct, the client holds one association per id and every association it holds owns a registered id, so "
+                "the allocator skips it (C06_distinct_timed), and a refreshed association survives the sweep of the same "
+                "handler however long it was idle (C06_refresh_survives_sweep). Tied to the code by "
                 "a differential run through the real next_channel / onaccept_tcp / ondns / onaccept_udp / dns_done / "
                 "expire_connections / got_packet with MAX_CHANNEL small and large, plus an oracle on the real tables."),
     level_note=("Trusted: Lean kernel (axioms propext/Classical.choice/Quot.sound at most), the harness and its fake "
@@ -112,7 +118,7 @@ class RealWorld:
         self.saved_max = ssnet.MAX_CHANNEL
         ssnet.MAX_CHANNEL = maxch
         self.saved_time = client.time.time
-        self.now = 1000.0
+        self.now = 1000
         client.time.time = lambda: self.now
         client.dnsreqs.clear()
         client.udp_by_src.clear()
@@ -133,7 +139,39 @@ class RealWorld:
 
     def table(self):
         ids = sorted(k for k, v in self.mux.channels.items() if v)
-        return 'chani=%d ids=%s' % (self.mux.chani, ','.join(str(i) for i in ids))
+        return 'chani=%d ids=%s held=%s' % (self.mux.chani, ','.join(str(i) for i in ids),
+                                            ','.join(str(i) for i in self.held()))
+
+    def held(self):
+        """ids of the DNS requests and UDP associations the client still holds (and will send on)"""
+        c = self.client
+        return sorted(list(c.dnsreqs) + [chan for (chan, _t) in c.udp_by_src.values()])
+
+    def sync(self):
+        """flows the client no longer holds (lazy expiry swept them) are closed: read off the real tables"""
+        c = self.client
+        for f in self.flows.values():
+            if not f['open']:
+                continue
+            if f['kind'] == 'dns' and f['chan'] not in c.dnsreqs:
+                f['open'] = False
+            elif f['kind'] == 'udp' and c.udp_by_src.get(f['src'], (None, 0))[0] != f['chan']:
+                f['open'] = False
+
+    def again(self, chan):
+        """a datagram from the source whose UDP association has this id"""
+        c = self.client
+        own = [f for f in self.flows.values() if f['open'] and f['kind'] == 'udp' and f['chan'] == chan]
+        if not own or own[0]['src'] not in c.udp_by_src:
+            return 'nosuch'
+        n0 = len(self.mux.outbuf)
+        self.method.next_udp = (own[0]['src'], ('192.0.2.9', 9), b'more')
+        c.onaccept_udp(self.listener, self.method, self.mux, self.handlers)
+        import struct
+        sent = [struct.unpack('!ccHHH', p[:8])[2:4] for p in self.mux.outbuf[n0:]]
+        data = [ch for (ch, cmd) in sent if cmd == self.ssnet.CMD_UDP_DATA]
+        self.sync()
+        return 'sent %s' % ','.join(str(x) for x in data)
 
     def live(self):
         return [f for f in self.flows.values() if f['open']]
@@ -174,12 +212,9 @@ class RealWorld:
             chan = c.udp_by_src[new.pop()][0]
             self.flows[flow] = dict(kind='udp', chan=chan, open=True, src=self.src_of(flow), deadline=self.now + 30)
         self.nflow += 1
-        # the accept handlers end with expire_connections(now): overdue DNS/UDP flows (deadline < now) are swept
-        self.swept = []
-        for n, f in self.flows.items():
-            if f['open'] and f['deadline'] is not None and f['deadline'] < self.now and n != flow:
-                f['open'] = False
-                self.swept.append(f['chan'])
+        # the accept handlers end with expire_connections(now): overdue DNS/UDP flows are swept (the model predicts
+        # which; the harness only reads the outcome off the real tables)
+        self.sync()
         return 'opened %s %d' % (chan, flow)
 
     def find_open(self, chan):
@@ -318,7 +353,7 @@ def run(ctx):
         # ---- histories
         def history(maxch, chani, ops, tag):
             w = RealWorld(maxch, chani)
-            lines_in = ['new %d %d %d' % (maxch, probes, chani)]
+            lines_in = ['new %d %d %d %d' % (maxch, probes, chani, 1000)]
             lines_out = ['ok']
             nontriv = False
             rops = []
@@ -326,12 +361,22 @@ def run(ctx):
                 for op in ops:
                     kind, arg = op
                     if kind == 'tick':
-                        w.now += arg
-                        rops.append('tick %s' % arg)
+                        w.now += int(arg)
+                        rops.append('tick %d' % int(arg))
+                        lines_in.append('tick %d' % int(arg))
+                        lines_out.append('ticked')
                         continue
-                    w.swept = []
                     try:
-                        if kind == 'open':
+                        if kind == 'again':
+                            udp = [f['chan'] for f in w.live() if f['kind'] == 'udp']
+                            if not udp:
+                                continue
+                            ch = udp[arg % len(udp)]
+                            o = w.again(ch)
+                            li = 'again %d' % ch
+                            nontriv = True
+                            ctx.hist('op:again')
+                        elif kind == 'open':
                             o = w.open(arg)
                             li = 'open %s' % arg
                             if o.startswith('discarded'):
@@ -366,12 +411,16 @@ def run(ctx):
                     lines_in.append(li)
                     rops.append(li)
                     lines_out.append(o)
-                    for c in w.swept:                 # predicted expiry sweep (harness's own bookkeeping)
-                        lines_in.append('close %d' % c)
-                        lines_out.append('closed')
-                        nontriv = True
                     lines_in.append('table')
                     lines_out.append(w.table())
+                    # oracle: every association the client holds (and will send on) owns a registered id
+                    lost = [i for i in w.held() if not w.mux.channels.get(i)]
+                    if lost:
+                        ctx.violation('C06:history:held-association-has-no-registered-id',
+                                      case=dict(kind='history', max=maxch, chani=chani, ops=list(rops)),
+                                      expected='every id in dnsreqs / udp_by_src registered in mux.channels (so that '
+                                               'next_channel skips it)', observed='unregistered: %r' % lost, kind='history')
+                        break
                     # oracle: distinct non-zero ids
                     ids = [f['chan'] for f in w.live()]
                     if len(set(ids)) != len(ids) or any((not i) for i in ids):
@@ -398,8 +447,10 @@ def run(ctx):
             ops = []
             for _ in range(n):
                 r = rng.random()
-                if r < 0.08:
-                    ops.append(('tick', rng.choice([1.0, 29.0, 30.0, 31.0, 61.0])))
+                if r < 0.10:
+                    ops.append(('tick', rng.choice([1, 29, 30, 31, 61])))
+                elif r < 0.18:
+                    ops.append(('again', rng.randrange(0, 4)))
                 elif r < 0.5:
                     ops.append(('open', rng.choice(['tcp', 'dns', 'udp'])))
                 elif r < 0.75:
@@ -428,6 +479,10 @@ def run(ctx):
         for kind in ['tcp', 'dns', 'udp']:
             w_ops = [('open', 'tcp')] * 3 + [('open', kind)]
             history(3, 0, w_ops, 'exhaust-' + kind)
+        # a source silent for longer than the expiry time sends again, then the cursor wraps onto its id
+        for gap in (29, 30, 31, 61):
+            history(2, 0, [('open', 'udp'), ('open', 'dns'), ('tick', gap), ('again', 0), ('open', 'tcp'), ('open', 'tcp'),
+                           ('frame', 1), ('frame', 2)], 'refresh-after-idle')
         if ctx.thorough:
             # all histories up to length 5 over MAX=2 (small-scope cross-check, not the proof)
             alphabet = [('open', 'tcp'), ('open', 'dns'), ('open', 'udp'), ('close', 1), ('close', 2),
@@ -478,10 +533,12 @@ def replay(ctx, rep):
                     continue
                 k, a = line.split()
                 if k == 'tick':
-                    w.now += float(a)
+                    w.now += int(float(a))
                     continue
                 try:
-                    if k == 'open':
+                    if k == 'again':
+                        w.again(int(a))
+                    elif k == 'open':
                         o = w.open(a)
                         if o.startswith('discarded') and case['max'] <= 1024 and len(w.live()) < case['max']:
                             return True, 'arrival %r discarded with only %d of %d ids in use' % (line, len(w.live()), case['max'])
@@ -497,6 +554,9 @@ def replay(ctx, rep):
                 ids = [f['chan'] for f in w.live()]
                 if len(set(ids)) != len(ids) or any((not i) for i in ids):
                     return True, 'ids %r' % ids
+                lost = [i for i in w.held() if not w.mux.channels.get(i)]
+                if lost:
+                    return True, 'after %r the client holds associations on unregistered ids %r' % (line, lost)
 
             return False, 'history ran; ids %r' % [f['chan'] for f in w.live()]
         finally:
